@@ -69,6 +69,10 @@ def run_case(case):
         payload = R.build_roland(c02.norm_model(case["model"]))[0]
     if case.get("drop_sectors"):
         payload = payload[:len(payload) - 8192 * case["drop_sectors"]]
+    if case.get("drop_2048"):
+        # the image ends early INSIDE the audio of its last sample (cut at a multiple of 2048: every container carries the
+        # same logical bytes; behind the MDX payload lies the wrapper's descriptor, which is not part of the image)
+        payload = payload[:len(payload) - 2048 * case["drop_2048"]]
     payload += bytes((i * 7 + 1) & 0xFF for i in range(case.get("trailing", 0))) if case.get("trail_kind") == "junk" else bytes(case.get("trailing", 0))
     with scratch_dir("c09") as d:
         paths = write_encodings(d, payload)
@@ -146,7 +150,7 @@ class Check(CheckBase):
     rule = ("case library = AKAI length/header/structure sweeps of C01 (quick: every 4th + all boundary lengths) and Roland "
             "chains/window/header sweeps of C02 (quick: every 12th; odd cluster counts make cluster reads straddle 2048-byte "
             "user-data boundaries) x trailing bytes {0,1,2047,2048} (zero and non-zero), one small image with every trailing sector count 0..127 "
-            "(thorough 0..511), truncated payloads, x the encodings {raw, MODE1/2352, "
+            "(thorough 0..511), truncated payloads (whole sectors dropped; the image ending inside the audio of its last sample), x the encodings {raw, MODE1/2352, "
             "MDX, cue->raw, cue->2352, cue in another directory naming its bin with a path, cue->raw written with lower/mixed case "
             "keywords, header and unknown lines, tabs, blank lines and CR LF} as real files: same image class, character-identical ls text at every node reachable "
             "through the printed names, identical exported trees (paths + bytes); cue dispatch: all combinations of "
@@ -173,6 +177,9 @@ class Check(CheckBase):
             for drop in (1, 2, 3):
                 spec = c01.structure_spec(nparts, 2, 3, 3, "linked", pair=True)
                 cases.append({"fmt": "akai", "spec": spec, "trailing": 0, "trail_kind": "zero", "drop_sectors": drop})
+        last = c01.one_file_spec(10000, 0, 10000, "rev")
+        for k in (1, 2, 3, 4, 5, 7, 9):
+            cases.append({"fmt": "akai", "spec": last, "trailing": 0, "trail_kind": "zero", "drop_2048": k})
         # every sector count in a consecutive range (one small image + t trailing 2048-byte sectors): covers every
         # residue of the raw-sector count modulo anything up to the range length
         small = c01.one_file_spec(300, 0, 300)
